@@ -332,7 +332,7 @@ theorem mem_dedupL {α} [BEq α] [LawfulBEq α] (l : List α) (x : α) : x ∈ d
       simp [ih]
 
 theorem chainOk_parent (A : App) (f : Nat) (D P : ClassDef) (hp : parentOf A.iface D = some P)
-    (hc : chainOk A.iface (f + 1) D = true) : P.ns = D.ns ∧ chainOk A.iface f P = true := by
+    (hc : chainOk A.iface (f + 1) D = true) : chainOk A.iface f P = true := by
   unfold parentOf at hp
   unfold chainOk at hc
   cases hb : D.base with
@@ -343,7 +343,7 @@ theorem chainOk_parent (A : App) (f : Nat) (D P : ClassDef) (hp : parentOf A.ifa
     have hp' : Registry.find? A.iface.classes b = some P := hp
     rw [hp'] at hc
     simp only [Bool.and_eq_true, decide_eq_true_eq] at hc
-    exact ⟨hc.1.1.1, hc.2⟩
+    exact hc.2
 
 theorem chainEnds_gen (A : App) (hc : Closed A) :
     ∀ (f : Nat) (D : ClassDef), D ∈ A.allClasses → chainOk A.iface f D = true →
@@ -358,33 +358,33 @@ theorem chainEnds_gen (A : App) (hc : Closed A) :
     | none => rfl
     | some P =>
       simp only [Option.map_some]
-      exact ih P (parent_mem A D P hp) (chainOk_parent A f D P hp hch).2
+      exact ih P (parent_mem A D P hp) (chainOk_parent A f D P hp hch)
 
-theorem names_of_aligned (A : App) (ns : Text) (ps : List (Text × Particle)) (fields : List (Text × Ty))
-    (h : All2 (AlignedWith A ns) ps fields) : ∀ e ∈ ps, e.1 = ns ∧ ∃ fl ∈ fields, e.2.name = fl.1 := by
+theorem names_of_aligned (A : App) (ps : List (Text × Particle)) (l : List (Text × (Text × Ty)))
+    (h : All2 (AlignedG A) ps l) : ∀ e ∈ ps, ∃ x ∈ l, e.2.name = x.2.1 := by
   induction h with
   | nil => intro e he; cases he
   | @cons e fl l1 l2 hab _ ih =>
     intro x hx
     rcases List.mem_cons.mp hx with e' | e'
-    · subst e'; exact ⟨hab.1, fl, by simp, hab.2.1⟩
-    · obtain ⟨h1, g, hg, h2⟩ := ih x e'
-      exact ⟨h1, g, by simp [hg], h2⟩
+    · subst e'; exact ⟨fl, by simp, hab.2.1⟩
+    · obtain ⟨g, hg, h2⟩ := ih x e'
+      exact ⟨g, by simp [hg], h2⟩
 
-theorem namesDistinct_of_aligned (A : App) (ns : Text) (ps : List (Text × Particle)) (fields : List (Text × Ty))
-    (h : All2 (AlignedWith A ns) ps fields) (hn : namesNodup fields = true) : namesDistinct ps = true := by
+theorem namesDistinct_of_aligned (A : App) (ps : List (Text × Particle)) (l : List (Text × (Text × Ty)))
+    (h : All2 (AlignedG A) ps l) (hn : namesNodup (l.map (·.2)) = true) : namesDistinct ps = true := by
   induction h with
   | nil => rfl
   | @cons e fl l1 l2 hab hrest ih =>
-    obtain ⟨k, t⟩ := fl
-    simp only [namesNodup, Bool.and_eq_true, Bool.not_eq_true', List.any_eq_false, decide_eq_true_eq] at hn
+    obtain ⟨n, k, t⟩ := fl
+    simp only [List.map_cons, namesNodup, Bool.and_eq_true, Bool.not_eq_true', List.any_eq_false, decide_eq_true_eq] at hn
     obtain ⟨ens, p⟩ := e
     simp only [namesDistinct, Bool.and_eq_true, Bool.not_eq_true', List.any_eq_false, decide_eq_true_eq, not_and]
     refine ⟨?_, ih hn.2⟩
     intro x hx _ hname
-    obtain ⟨_, g, hg, h2⟩ := names_of_aligned A ns l1 l2 hrest x hx
+    obtain ⟨g, hg, h2⟩ := names_of_aligned A l1 l2 hrest x hx
     have : p.name = k := hab.2.1
-    exact hn.1 g hg (by rw [← h2, hname, this])
+    exact hn.1 g.2 (List.mem_map.mpr ⟨g, hg, rfl⟩) (by rw [← h2, hname, this])
 
 theorem tyWf_of_mem (fs : List (Text × Ty)) (hw : fieldsWf fs = true) : ∀ f ∈ fs, tyWf f.2 = true := by
   induction fs with
@@ -491,10 +491,21 @@ theorem class_definition_ok (A : App) (hwf : A.wf = true) (D : ClassDef) (hD : D
     | none => rfl
     | some P =>
       have hPa := parent_mem A D P hp
-      have hns := (chainOk_parent A _ D P hp (hc.chain D hD)).1
       have hl := hc.cplx P hPa
-      simp only [Option.map_some, Schema.visible, hns, decide_true, Bool.true_or, Schema.hasComplex, Bool.true_and]
-      rw [← hns, hl]; rfl
+      simp only [Option.map_some, Schema.hasComplex, hl, Option.isSome_some, Bool.and_true]
+      simp only [Schema.visible, Bool.or_eq_true, decide_eq_true_eq]
+      by_cases hk : P.ns = D.ns
+      · exact Or.inl hk
+      · right
+        have hmem : (D.ns, P.ns) ∈ (gen A).imports := by
+          show (D.ns, P.ns) ∈ dedupL (A.allClasses.flatMap (classImports A))
+          rw [mem_dedupL]
+          refine List.mem_flatMap.mpr ⟨D, hD, ?_⟩
+          unfold classImports
+          refine List.mem_filterMap.mpr ⟨P.ns, ?_, by simp [hk]⟩
+          rw [hp]
+          exact List.mem_append.mpr (Or.inl (by simp))
+        exact List.contains_iff_mem.mpr hmem
   · rw [hbnd]; exact chainEnds_gen A hc _ D hD (hc.chain D hD)
   · rw [List.all_eq_true]
     intro p hp
@@ -505,7 +516,7 @@ theorem class_definition_ok (A : App) (hwf : A.wf = true) (D : ClassDef) (hD : D
     refine ⟨refOk_field A D hD f hf (hc.pos D hD f hf), ?_⟩
     exact occ_ok_of_wf _ (occWf_of_tyWf f.2 (tyWf_of_mem D.fields hbase.2 f (ownFields_sub _ _ f hf)))
   · rw [hbnd, effParticles_gen A hc.cplx _ D hD]
-    exact namesDistinct_of_aligned A D.ns _ D.fields (classParticles_aligned A _ D hD (hc.chain D hD)) hbase.1
+    exact namesDistinct_of_aligned A _ _ (classParticles_aligned A _ D hD) (by rw [annFields_snd A _ D (hc.chain D hD)]; exact hbase.1)
 
 end Schema
 end SpyneModel
@@ -799,7 +810,8 @@ theorem lookup_isSome_of_mem {α} (l : List (Key × α)) (e : Key × α) (h : e 
 
 /-- **gen_compiles.** The schema generated for a well-formed application passes every check libxml2
     applies to this subset of XSD. -/
-theorem gen_compiles (A : App) (G : A.leaf.Good) (hwf : A.wf = true) : (gen A).compiles = true := by
+theorem gen_compiles_of (A : App) (G : A.leaf.Good) (hwf : A.wf = true)
+    (himp : (gen A).importsHaveDocs = true) : (gen A).compiles = true := by
   have hc := closed_of_wf A hwf
   have hwf' := hwf
   unfold App.wf at hwf'
@@ -819,7 +831,7 @@ theorem gen_compiles (A : App) (G : A.leaf.Good) (hwf : A.wf = true) : (gen A).c
   have helems : (gen A).elements = (gen A).complex.map (fun e => (e.1, e.1)) := rfl
   unfold Schema.compiles
   simp only [Bool.and_eq_true]
-  refine ⟨⟨⟨⟨⟨⟨?_, ?_⟩, ?_⟩, ?_⟩, ?_⟩, ?_⟩, ?_⟩
+  refine ⟨⟨⟨⟨⟨⟨⟨?_, ?_⟩, ?_⟩, ?_⟩, ?_⟩, ?_⟩, ?_⟩, himp⟩
   · rw [hsimple]; exact nodupKeys_dedupAux [] _
   · rw [hcomplex]; exact nodupKeys_dedupAux [] _
   · rw [helems]; exact nodupKeys_map_self _ (by rw [hcomplex]; exact nodupKeys_dedupAux [] _)
@@ -859,7 +871,7 @@ theorem gen_compiles (A : App) (G : A.leaf.Good) (hwf : A.wf = true) : (gen A).c
     intro e he
     rw [helems] at he
     obtain ⟨y, hy, rfl⟩ := List.mem_map.mp he
-    simp only [Schema.hasComplex, lookup_isSome_of_mem _ y hy, Bool.true_or]
+    simp only [Schema.hasComplex, lookup_isSome_of_mem _ y hy, Bool.true_or, Schema.visible, decide_true, Bool.and_self]
 
 end Schema
 end SpyneModel
